@@ -49,6 +49,19 @@ func ruleUpstreamCtor(c *Ctx) {
 				backupOf[fldOwner(l.Atom).Key()] = &v
 			}
 		}
+		// every configured server is registered: one Add/AddBackup per element the loop visited
+		visited := map[string]bool{}
+		for _, l := range pr.Conds {
+			l.Atom.walk(func(x *Term) bool {
+				if x.Op == "ia" && len(x.Args) == 2 && x.Args[0].contains(func(y *Term) bool { return (y.Op == "fa" || y.Op == "fld") && y.Name == "Servers" }) {
+					if _, ok := x.Args[1].IntVal(); ok {
+						visited[x.Key()] = true
+					}
+				}
+				return true
+			})
+		}
+		registered := map[string]bool{}
 		checkAt, goAt, retOK := -1, -1, false
 		for i, e := range pr.Events {
 			if e.Kind == "dyncall" {
@@ -66,6 +79,7 @@ func ruleUpstreamCtor(c *Ctx) {
 						continue
 					}
 					srv := fldOwner(addr)
+					registered[srv.Key()] = true
 					b := backupOf[srv.Key()]
 					if b == nil {
 						wiring = append(wiring, "a server is registered without its own backup flag being consulted on "+where)
@@ -108,6 +122,11 @@ func ruleUpstreamCtor(c *Ctx) {
 				case "Option":
 					option = e.Val
 				}
+			}
+		}
+		for k := range visited {
+			if !registered[k] {
+				wiring = append(wiring, "a configured server ("+k+") is looked at but never registered with the pool (servers are dropped: no traffic share, no fail-over to them) on "+where)
 			}
 		}
 		if !pol || !ping {
@@ -670,6 +689,9 @@ func ruleSectionsApplied(c *Ctx) {
 		}
 		if k, isNil := pr.Facts.Decide(eqTerm(ext(read.Result, 1), nilTerm(nil))); k && !isNil {
 			return // read failed
+		}
+		if k, isNil := pr.Facts.Decide(eqTerm(pr.Results[0], nilTerm(nil))); k && !isNil && !pr.Results[0].IsNil() {
+			return // the update reports a failure of its own (nothing is claimed to have been applied)
 		}
 		applied := map[string]int{}
 		order := []string{}
